@@ -28,6 +28,7 @@ def run(ctx):
     nested_runs(ctx, ctx.n(20, 300))
     past_till(ctx, ctx.n(30, 500))
     oracle_correspondence(ctx, ctx.n(300, 3000))
+    after_reuse_correspondence(ctx, ctx.n(200, 2000))
     reused_conditions(ctx, ctx.n(20, 300))
     # timed waits through the SimPy layer (Timeout, processes registered before the run, initial_time): C18's directed
     # family, its oracle is the clock arithmetic of this property
@@ -222,6 +223,51 @@ def oracle_correspondence(ctx, n):
     else:
         for i in bad:
             ctx.mismatch('oracle-formulas', {'formula': cases[i][0], 'time': cases[i][1]}, monitors._holds(*cases[i]), 'differs', '')
+
+
+def after_reuse_correspondence(ctx, n):
+    """AfterReuse.v against the real `After._ensure_trigger`: random histories of uses (which loop subscribes next) are
+    executed on a real `time >= d` object under stand-in loops that only record `schedule` calls, and through the Coq
+    function `run ensure_fixed None`; the lists of loops that got a trigger must be equal"""
+    from usim import time as utime
+    from usim._core.handler import __USIM_STATE__ as state
+    from harness.check import parse_nat_list
+    rng = ctx.rng
+
+    class FakeLoop:
+        def __init__(self, ident, log):
+            self.ident, self.log, self.time = ident, log, 0
+
+        def schedule(self, target, signal=None, *, delay=None, at=None):
+            self.log.append(self.ident)
+            target.close()
+    cases = []
+    for _ in range(n):
+        k = rng.choice([1, 2, 3, 4])
+        uses = [rng.randrange(1, k + 1) for _ in range(rng.randint(0, 9))]
+        cond = utime >= 5
+        log = []
+        loops = {i: FakeLoop(i, log) for i in range(1, k + 1)}
+        for u in uses:
+            with state.assign(loops[u]):
+                cond._ensure_trigger()
+        cases.append((uses, list(reversed(log))))      # the model conses: newest first
+    text = ['From Coq Require Import List Arith.', 'From Usim Require Import AfterReuse.', 'Import ListNotations.',
+            'Definition cases : list (list nat * list nat) := [%s].' % ';\n  '.join(
+                '([%s], [%s])' % ('; '.join(map(str, u)), '; '.join(map(str, t))) for u, t in cases),
+            'Fixpoint bad (i : nat) (l : list (list nat * list nat)) : list nat :=',
+            '  match l with [] => [] | (u, t) :: r =>',
+            '    (if list_eq_dec Nat.eq_dec (triggers (run ensure_fixed None u)) t then [] else [i]) ++ bad (S i) r end.',
+            'Eval vm_compute in (bad 0 cases).']
+    path = ctx.write_case_file('after_reuse', '\n'.join(text) + '\n')
+    rc, out = ctx.run_case_files([path])[path]
+    bad = parse_nat_list(out) if rc == 0 else None
+    ctx.bump('family:after-reuse-correspondence', n)
+    if bad is None:
+        ctx.mismatch('after-reuse', None, None, None, 'case file did not evaluate: %s' % out[-300:])
+    else:
+        for i in bad:
+            ctx.mismatch('after-reuse', {'uses': cases[i][0]}, cases[i][1], 'model differs', '')
 
 
 def past_till(ctx, n):
